@@ -1292,7 +1292,21 @@ class Exec:
             return [('ok', st, None)]
         if isinstance(target, (ast.Tuple, ast.List)):
             if any(isinstance(x, ast.Starred) for x in target.elts):
-                raise Unsupported('starred assignment target')
+                # a, *rest, b = <tuple of known length>
+                stars = [i for i, x in enumerate(target.elts) if isinstance(x, ast.Starred)]
+                vv = unbox_handle(self, v)
+                if len(stars) != 1 or not isinstance(vv, PyTuple):
+                    raise Unsupported('starred assignment target')
+                i, m, k = stars[0], len(target.elts), len(vv.items)
+                if k < m - 1:
+                    self.oblige(st, f'line {target.lineno}: unpack arity', False)
+                    return []
+                parts = list(vv.items[:i]) + [PyTuple(list(vv.items[i:k - (m - 1 - i)]))] + list(vv.items[k - (m - 1 - i):])
+                tgts = [x.value if isinstance(x, ast.Starred) else x for x in target.elts]
+                outs = [('ok', st, None)]
+                for t, p_ in zip(tgts, parts):
+                    outs = self.bind(outs, lambda s2, _, t=t, p_=p_: self.assign(t, p_, s2))
+                return outs
             n = len(target.elts)
             v = unbox_handle(self, v)
             if isinstance(v, PyTuple):
